@@ -26,6 +26,28 @@ func runChild(r *vf.Run, label string, env ...string) {
 		r.Inconclusive("cannot locate own executable for child runs: " + err.Error())
 		return
 	}
+	runChildExe(r, exe, label, env...)
+}
+
+// OtherTarget re-runs the whole monitor with the harness and the library compiled for a 32-bit
+// target (GOARCH=386, built by ./check and named in VERIF_BIN386; int, uint and uintptr are 32 bits
+// wide there) and with an aggressive garbage collector: the build target and the collector's pace are
+// part of the environment, and none of the properties is stated for 64-bit builds only.
+func OtherTarget(r *vf.Run) {
+	exe := os.Getenv("VERIF_BIN386")
+	if exe == "" || os.Getenv("VERIF_CHILD") != "" || r.OnlyPhase != "" || r.ID == "C18" {
+		return // (the race detector does not exist for 386: C18 stays on the native target)
+	}
+	if exe == "unavailable" {
+		r.SetExtra("goarch_386", "the harness did not build for GOARCH=386 against this tree: not run there")
+		return
+	}
+	runChildExe(r, exe, "goarch-386", "GOGC=10")
+	r.SetExtra("goarch_386", "whole monitor repeated in a GOARCH=386 build with GOGC=10")
+}
+
+func runChildExe(r *vf.Run, exe, label string, env ...string) {
+	var err error
 	out := filepath.Join(vf.ScratchDir(), "child-"+r.ID+"-"+label)
 	_ = os.MkdirAll(out, 0o755)
 	defer os.RemoveAll(out)
